@@ -23,8 +23,8 @@ import (
 	"github.com/aergoio/aergo/v2/chain"
 	"github.com/aergoio/aergo/v2/config"
 	"github.com/aergoio/aergo/v2/consensus"
-	"github.com/aergoio/aergo/v2/consensus/impl/dpos"
 	cchain "github.com/aergoio/aergo/v2/consensus/chain"
+	"github.com/aergoio/aergo/v2/consensus/impl/dpos"
 	"github.com/aergoio/aergo/v2/contract"
 	"github.com/aergoio/aergo/v2/contract/system"
 	"github.com/aergoio/aergo/v2/fee"
@@ -75,16 +75,16 @@ type Rec struct {
 	hub  *component.ComponentHub
 }
 
-func (r *Rec) GetName() string                      { return r.name }
-func (r *Rec) Start()                               {}
-func (r *Rec) Stop()                                {}
-func (r *Rec) Status() component.Status             { return component.StartedStatus }
-func (r *Rec) SetHub(h *component.ComponentHub)     { r.hub = h }
-func (r *Rec) Hub() *component.ComponentHub         { return r.hub }
-func (r *Rec) MsgQueueLen() int32                   { return 0 }
-func (r *Rec) Receive(actor.Context)                {}
-func (r *Rec) Tell(m interface{})                   { r.mu.Lock(); r.Msgs = append(r.Msgs, m); r.mu.Unlock() }
-func (r *Rec) Request(m interface{}, _ *actor.PID)  { r.Tell(m) }
+func (r *Rec) GetName() string                     { return r.name }
+func (r *Rec) Start()                              {}
+func (r *Rec) Stop()                               {}
+func (r *Rec) Status() component.Status            { return component.StartedStatus }
+func (r *Rec) SetHub(h *component.ComponentHub)    { r.hub = h }
+func (r *Rec) Hub() *component.ComponentHub        { return r.hub }
+func (r *Rec) MsgQueueLen() int32                  { return 0 }
+func (r *Rec) Receive(actor.Context)               {}
+func (r *Rec) Tell(m interface{})                  { r.mu.Lock(); r.Msgs = append(r.Msgs, m); r.mu.Unlock() }
+func (r *Rec) Request(m interface{}, _ *actor.PID) { r.Tell(m) }
 func (r *Rec) RequestFuture(m interface{}, timeout time.Duration, tip string) *actor.Future {
 	r.Tell(m)
 	f := actor.NewFuture(timeout)
@@ -121,9 +121,9 @@ type StubConsensus struct {
 	CDB     consensus.ChainDB
 }
 
-func (s *StubConsensus) IsTransactionValid(tx *types.Tx) bool                   { return true }
-func (s *StubConsensus) VerifyTimestamp(block *types.Block) bool                { return true }
-func (s *StubConsensus) VerifySign(block *types.Block) error                    { return nil }
+func (s *StubConsensus) IsTransactionValid(tx *types.Tx) bool                     { return true }
+func (s *StubConsensus) VerifyTimestamp(block *types.Block) bool                  { return true }
+func (s *StubConsensus) VerifySign(block *types.Block) error                      { return nil }
 func (s *StubConsensus) IsBlockValid(block *types.Block, best *types.Block) error { return nil }
 
 // Update mirrors what the DPoS status does with the process-wide system parameters: a block
@@ -138,17 +138,17 @@ func (s *StubConsensus) Update(block *types.Block) {
 	}
 	s.Last = block
 }
-func (s *StubConsensus) Save(tx consensus.TxWriter) error                       { return nil }
+func (s *StubConsensus) Save(tx consensus.TxWriter) error { return nil }
 func (s *StubConsensus) NeedReorganization(rootNo types.BlockNo) bool {
 	if s.Veto != nil {
 		return !s.Veto(rootNo)
 	}
 	return true
 }
-func (s *StubConsensus) Info() string                                           { return "" }
-func (s *StubConsensus) GetType() consensus.ConsensusType                       { return consensus.ConsensusSBP }
-func (s *StubConsensus) NeedNotify() bool                                       { return true }
-func (s *StubConsensus) HasWAL() bool                                           { return false }
+func (s *StubConsensus) Info() string                     { return "" }
+func (s *StubConsensus) GetType() consensus.ConsensusType { return consensus.ConsensusSBP }
+func (s *StubConsensus) NeedNotify() bool                 { return true }
+func (s *StubConsensus) HasWAL() bool                     { return false }
 
 // IsConnectedBlock is what the DPoS and SBP implementations do: a block that is already stored
 // (connected or not) is not processed again.
@@ -159,7 +159,7 @@ func (s *StubConsensus) IsConnectedBlock(block *types.Block) bool {
 	_, err := s.CDB.GetBlock(block.BlockHash())
 	return err == nil
 }
-func (s *StubConsensus) IsForkEnable() bool                                     { return true }
+func (s *StubConsensus) IsForkEnable() bool { return true }
 func (s *StubConsensus) MakeConfChangeProposal(req *types.MembershipChange) (*consensus.ConfChangePropose, error) {
 	return nil, consensus.ErrNotSupportedMethod
 }
